@@ -20,12 +20,12 @@ PROP = dict(
     engines=[dict(
         name="codec", classify=classify,
         quick=dict(cases=24000, shards=4, profiles=["debug", "release"]),
-        thorough=dict(cases=2000000, shards=16, profiles=["debug", "release"]),
+        thorough=dict(cases=480000, shards=16, profiles=["debug", "release"]),
     ), dict(
         # rollback change records: the decoders are driven through the real rollback on damaged records
         name="rawvec", classify=classify_faults,
         quick=dict(cases=1400, shards=4, profiles=["debug"], extra=["--faults"]),
-        thorough=dict(cases=64000, shards=16, profiles=["debug", "release"], extra=["--faults"]),
+        thorough=dict(cases=24000, shards=16, profiles=["debug"], extra=["--faults"]),
     )],
     rule="inputs: 12 codec case kinds in rotation (metadata slots 60% valid / 40% boundary+malformed, encoders at and "
          "around the limits, headers, pages, numeric widths 1-16, byte arrays, regions files with mixed valid/invalid "
